@@ -240,6 +240,7 @@ def shards(tier, seed):
     out.append(dict(kind='boundaries'))
     out.append(dict(kind='malformed'))
     out.append(dict(kind='workbook'))
+    out.append(dict(kind='purity'))
     n_h = 4 if tier == 'quick' else 16
     for k in range(n_h):
         out.append(dict(kind='hyp', seed=seed * 1000 + k,
@@ -247,8 +248,33 @@ def shards(tier, seed):
     return out
 
 
+def purity_items():
+    """arguments that are equal (and hash-equal) in python but different in
+    Excel: TRUE / 1 / 1.0, FALSE / 0, numbers and their text"""
+    items = []
+    for f in ('DEC2BIN', 'DEC2OCT', 'DEC2HEX'):
+        for v in (True, 1, 1.0, '1', False, 0, 0.0, '0', -1, -1.0, '-1',
+                  511, 511.0, '511'):
+            items.append((f'={f}(A1)', {'A1': v}))
+            for places in (4, 10, 4.0, '4', True):
+                items.append((f'={f}(A1,B1)', {'A1': v, 'B1': places}))
+    for f in ('BIN2DEC', 'OCT2DEC', 'HEX2DEC', 'BIN2OCT', 'BIN2HEX',
+              'OCT2BIN', 'OCT2HEX', 'HEX2BIN', 'HEX2OCT'):
+        for v in (1, '1', True, 1.0, 10, '10', 10.0, 0, '0', False, 0.0,
+                  '0000000001', 1111111111, '1111111111', 1111111111.0):
+            items.append((f'={f}(A1)', {'A1': v}))
+    return items
+
+
 def run_shard(shard, rec):
     kind = shard['kind']
+    if kind == 'purity':
+        from vlib import purity
+        purity.order_independence(rec, purity_items(), 'C18')
+        rec.exhaustive.append('python-equal argument aliases x 12 functions '
+                              'in three evaluation orders, fresh interpreter '
+                              'each')
+        return
     ctx = Ctx(rec)
     if kind == 'bin-dec2':
         for n in range(-514, 514)[shard['part']::shard['parts']]:
@@ -377,6 +403,11 @@ def run_shard(shard, rec):
 
 
 def replay(case, rec):
+    if isinstance(case, dict) and case.get('kind') == 'purity':
+        from vlib import purity
+        purity.order_independence(
+            rec, [(f, c) for f, c in case['items']], 'C18')
+        return
     ctx = Ctx(rec, form=case.get('form', 'fast') if isinstance(case, dict)
               else 'fast')
     if isinstance(case, list):
